@@ -230,6 +230,44 @@ Section C12.
     - exists id2, r, i1, id1. repeat split; auto. lia.
   Qed.
 
+  Lemma enumerate_app {X} (l1 l2 : list X) : forall s,
+    enumerate_from s (l1 ++ l2) = enumerate_from s l1 ++ enumerate_from (s + length l1) l2.
+  Proof.
+    induction l1 as [|x t IH]; intros s; cbn [app enumerate_from length].
+    - now rewrite Nat.add_0_r.
+    - rewrite IH. now rewrite Nat.add_succ_r.
+  Qed.
+
+  (** Declarative reading of "no pair can be removed": for any two adds that are equal or
+      related by ancestry, no remove is absent or an ancestor of the one that would be dropped. *)
+  Lemma find_pair_none_spec (c : list T) :
+    find_pair c = None <->
+    forall i1 i2 a1 a2 ai aid,
+      (i1 < i2)%nat -> nth_error (adds c) i1 = Some a1 -> nth_error (adds c) i2 = Some a2 ->
+      pick eqb ancb i1 a1 i2 a2 = Some (ai, aid) ->
+      forall r, In r (removes c) -> remove_ok ancb aid r = false.
+  Proof.
+    unfold find_pair_to_remove. rewrite find_outer_none. split.
+    - intros H i1 i2 a1 a2 ai aid L N1 N2 P. apply position_none.
+      assert (L1 : (i1 < length (adds c))%nat) by (apply nth_error_Some; congruence).
+      pose proof (firstn_skipn i1 (adds c)) as Sp.
+      assert (Sk : skipn i1 (adds c) = a1 :: skipn (S i1) (adds c)).
+      { clear -N1. revert i1 N1. induction (adds c) as [|h t IH]; intros [|i] N; cbn in *; try discriminate.
+        - now injection N as ->.
+        - now apply IH. }
+      rewrite Sk in Sp.
+      apply (H (enumerate_from 0 (firstn i1 (adds c))) i1 a1
+               (enumerate_from (S i1) (skipn (S i1) (adds c))) i2 a2 ai aid); [|  |exact P].
+      + transitivity (enumerate_from 0 (firstn i1 (adds c) ++ a1 :: skipn (S i1) (adds c)));
+          [now rewrite Sp|]. rewrite enumerate_app. cbn [Nat.add enumerate_from].
+        rewrite firstn_length, Nat.min_l by lia. reflexivity.
+      + apply nth_error_In with (n := (i2 - S i1)%nat). rewrite nth_error_enumerate, nth_error_skipn'.
+        replace (S i1 + (i2 - S i1))%nat with i2 by lia. unfold term in *. now rewrite N2.
+    - intros H pre i1 a1 post i2 a2 ai aid E I P.
+      destruct (enumerate_split _ _ _ _ _ E) as (_ & N1 & N2). destruct (N2 i2 a2 I) as [L N3].
+      apply position_none. eauto.
+  Qed.
+
   Lemma find_pair_single (x : T) : find_pair [x] = None.
   Proof. reflexivity. Qed.
 
